@@ -89,6 +89,9 @@ def _one(R, rng, i):
     os.makedirs(d)
     layout = rng.choice(["3d", "3d", "4d", "rgb"])
     shape = [rng.choice([1, 1, 2, 3, 4, 5, 7, 8, 9, 13, rng.randrange(1, 14)]) for _ in range(3)]
+    many_shards = i == 10          # 4096 one-voxel chunks spread over 512 shard files, each visited 8 times
+    if many_shards:
+        shape = [16, 16, 16]
     disk = rng.choice(DISK)
     forced_huge = {6: ("float64", "uint64"), 7: ("float32", "uint64"), 8: ("float32", "uint32"),
                    9: ("float64", "uint16")}.get(i)
@@ -113,12 +116,18 @@ def _one(R, rng, i):
         slope, inter = rng.choice([(2.0, 0.0), (0.5, 1.0), (-1.0, 10.0), (1.0, -3.0)])
     nii = os.path.join(d, "vol.nii" + rng.choice(["", ".gz"]))
     storage = rng.choice(["deep-gz", "flat-gz", "deep", "flat", "sharded", "sharded-gz"])
+    if many_shards:
+        storage = "sharded"
     # anisotropic voxel sizes give anisotropic chunk sizes (sharded storage needs cubic chunks)
     vox = (1.0, 1.0, 1.0)
     if not storage.startswith("sharded") and rng.random() < 0.5:
         vox = rng.choice([(1.0, 1.0, 4.0), (0.5, 2.0, 1.0), (3.0, 1.0, 1.0), (1.0, 2.0, 2.0), (1.0, 8.0, 1.0),
                           (2.0, 1.0, 0.25)])
-    pipeline.write_nifti(nii, data, affine=np.diag(list(vox) + [1.0]), slope=slope, inter=inter)
+    # one volume in five is stored big-endian (nibabel reads the same values from either byte order)
+    big_endian = layout != "rgb" and i % 5 == 3
+    pipeline.write_nifti(nii, data, affine=np.diag(list(vox) + [1.0]), slope=slope, inter=inter, big_endian=big_endian)
+    if big_endian:
+        R.count("file:big-endian")
 
     ignore = slope is not None and rng.random() < 0.4
     mmap = rng.random() < 0.35
@@ -130,18 +139,21 @@ def _one(R, rng, i):
     if forced:
         if forced[0] and slope is None:
             slope, inter = rng.choice([(2.0, 0.0), (0.5, 1.0), (-1.0, 10.0), (1.0, -3.0)])
-            pipeline.write_nifti(nii, data, affine=np.diag(list(vox) + [1.0]), slope=slope, inter=inter)
+            pipeline.write_nifti(nii, data, affine=np.diag(list(vox) + [1.0]), slope=slope, inter=inter,
+                                 big_endian=big_endian)
         ignore = forced[1] and slope is not None
         if forced[2]:
             in_minmax = rng.choice([(0.0, 255.0), (-100.0, 100.0), (10.0, 20.0), (None, 1000.0)])
+            if i == 3:
+                in_minmax = rng.choice([(255.0, 0.0), (None, -50.0)])        # inverted: a negative image
     if huge:
         in_minmax = None          # plain conversion of huge values: saturation, no rescaling
         slope = inter = None
-        pipeline.write_nifti(nii, data, affine=np.diag(list(vox) + [1.0]))
+        pipeline.write_nifti(nii, data, affine=np.diag(list(vox) + [1.0]), big_endian=big_endian)
         ignore = False
     if layout != "rgb" and in_minmax is None and not huge and rng.random() < 0.2:
         in_minmax = rng.choice([(0.0, 255.0), (None, 1000.0), (-100.0, 100.0), (10.0, 20.0), (-100.0, 0.0),
-                                (-2.0, 0.0)])
+                                (-2.0, 0.0), (255.0, 0.0), (100.0, -100.0), (None, -50.0)])   # also inverted windows
     target = rng.choice([None, None] + NG)
     if huge:
         target = forced_huge[1] if forced_huge else rng.choice(["uint64", "uint64", "uint32", "uint16", "uint8"])
@@ -151,6 +163,8 @@ def _one(R, rng, i):
     if in_minmax and target is None and disk in ("uint64", "int64"):
         target = "uint16"
     tcs = rng.choice([1, 2, 4, 8])
+    if many_shards:
+        tcs = 1
     out = os.path.join(d, "out")
 
     gen_args = ["--generate-info"]
@@ -164,7 +178,9 @@ def _one(R, rng, i):
         conv_opts += ["--input-max", in_minmax[1]]
         gen_args += conv_opts[-4:] if in_minmax[0] is not None else conv_opts[-2:]
     if storage.startswith("sharded"):
-        gen_args += ["--sharding", rng.choice(["0,0,0", "1,1,0", "2,1,1", "1,0,2", "3,2,0"])]
+        gen_args += ["--sharding", "0,9,0" if many_shards else rng.choice(["0,0,0", "1,1,0", "2,1,1", "1,0,2", "3,2,0"])]
+        if many_shards:
+            R.count("sharded:512-shard-files")
         if not storage.endswith("gz"):
             gen_args.append("--no-gzip")
     rc, so, se = pipeline.run_script("volume_to_precomputed", gen_args + [nii, out], inprocess=True)
